@@ -70,6 +70,10 @@ CLAIMED = {
          "Deductive proof for every aggregation state, store content and clock history: an entry is removed only if late-with-stored-VAA, submitted and an hour old, retry budget exhausted, or never observed after five minutes; an own unsubmitted message is never discarded before its budget unless a quorum VAA is stored; a retry happens only >= 5 min after the previous one, re-broadcasts the node's own observation and bumps the counter by one; when due, retry / expiry / drop does happen; other entries are untouched.",
          "Trusted: govc, SMT solvers; assumed ghost-store contracts of db.GetSignedVAABytes (verified separately under C12 where claimed); time.Since/Now on a ghost monotone clock, Duration.Hours/Minutes as exact reals; ticks are assumed to keep arriving (the bounded-lifetime conclusion follows from the proved per-tick relation: retryCount strictly increases towards the budget); the goroutine sending the miss notification is not executed.",
          "DESIGN.md §3-C14"),
+ "C12": ("functional contracts on StoreSignedVAA / GetSignedVAABytes / FindEmitterSequenceGap / GetGovernanceVAABatch verified against an assumed model of badger (store = ghost map VAAID -> bytes through the key format that govc extracts from (*VAAID).Bytes on every run; View/Update run once, Update atomic; Get not-found iff absent; the Seek/ValidForPrefix/Next idiom visits each key with the prefix once); format-structured strings: prefix tests, LastIndex/slicing and ParseUint on Sprintf results are decided segment-wise (a pattern that ends inside a %d matches every number starting with those digits); loop invariants over the iteration's visited set; contracts on the three public RPC lookups and on find-missing-messages; SMT; violations replayed on a real badger store",
+         "Deductive proof for every store content and every query: StoreSignedVAA puts exactly the VAA's encoding under exactly its (emitter chain, address, target chain, sequence) identifier and changes no other entry (the key format is proved injective); GetSignedVAABytes returns the bytes of exactly that identifier and not-found exactly for an absent one; FindEmitterSequenceGap reports exactly the sequences between firstSeq and lastSeq that the stream does not hold, lastSeq is the stream's highest sequence, and VAAs of any other emitter chain, address or target chain have no influence (the unterminated prefix let target chain 2 see 25x: found, replayed, repaired); GetGovernanceVAABatch returns exactly the stored VAAs of the governance emitter with a requested sequence, each with the target chain, sequence and bytes of its key; the RPC lookups and find-missing-messages address exactly the identifier / stream the request names (chain ids outside 16 bits and short addresses were folded onto other streams: found, replayed, repaired).",
+         "Trusted: govc, SMT solvers; the badger model and the segment-alignment rules for formatted strings (argued in DESIGN.md §3-C12; decimal renderings are canonical, a literal after %d starts with a non-digit, hex renderings have fixed width); hex.DecodeString/EncodeToString uninterpreted; vaa.Unmarshal/Marshal through their verified contracts (C05). Environment: store invariant wfStore (every stored value carries the sequence of its key; no sequence counter has reached 2^64-1) is a precondition of the stream queries - it is what StoreSignedVAA establishes, the history induction over all writers is not mechanised; firstSeq is 0 by construction of the code (reported as is). The backfill path of find-missing-messages (HTTP) is not verified.",
+         "DESIGN.md §3-C12"),
  "C13": ("zero-annotation no-panic obligations (nil deref, index, slice bounds, nil-map write, explicit panic, make size, callee preconditions) on the seven handlers and Run under the processor's representation invariant, which every handler is proved to re-establish; SMT",
          "Deductive proof that from every state satisfying the representation invariant Inv(p) and for every chain message, observation, inbound VAA, injected VAA, guardian-set update and tick, no handler reaches a panic site and Inv(p) holds again afterwards; Run's loop invariant turns this into 'for every sequence of events'. Two genuine defects found by failing obligations and history replays were repaired (undecodable stored VAA; cleanup before the first guardian set).",
          "Trusted: govc, SMT solvers. Environment assumptions (listed in evidence): messages on channels are non-nil; guardian sets arriving on setC have at most 255 keys; a working guardian signer and proto.Marshal (the code panics by design if they fail); LastHeartbeat returns non-nil heartbeats (assumed contract); ghost-store contracts of db.Store/Get; goroutines started by the handlers are not executed; runtime exhaustion (memory growth by a valid guardian) is out of scope.",
